@@ -1,0 +1,16 @@
+//go:build verif
+
+package shard
+
+import "github.com/semafind/semadb/diskstore"
+
+// VerifDiskStore exposes the underlying disk store to verification harnesses.
+func (s *Shard) VerifDiskStore() diskstore.DiskStore {
+	return s.db
+}
+
+// VerifWrapDiskStore replaces the shard's disk store with wrap(current). It
+// must be called while no operation is in flight.
+func (s *Shard) VerifWrapDiskStore(wrap func(diskstore.DiskStore) diskstore.DiskStore) {
+	s.db = wrap(s.db)
+}
